@@ -79,11 +79,17 @@ func checkC03(c c03Case, o *Obs) error {
 	if c.CLI && gofastaBin() != "" {
 		dir, cleanup := caseDir("c03cli")
 		defer cleanup()
-		args := []string{"snps", "-r", writeFile(dir, "ref.fa", refTxt), "-q", writeFile(dir, "aln.fa", alnTxt)}
+		args := []string{"snps", "-r", writeFile(dir, "ref.fa", refTxt)}
+		stdin := ""
+		if len(c.Recs)%2 == 0 && len(alnTxt) < 60000 {
+			stdin = alnTxt // -q defaults to stdin
+		} else {
+			args = append(args, "-q", writeFile(dir, "aln.fa", alnTxt))
+		}
 		if c.HardGaps {
 			args = append(args, "--hard-gaps")
 		}
-		if err := cliAgree(o, "snps", want, args...); err != nil {
+		if err := cliAgreeStdin(o, "snps", want, stdin, args...); err != nil {
 			return err
 		}
 	}
